@@ -409,6 +409,45 @@ func init() {
 			ch.buf = append(ch.buf, zero(ch.elemT))
 			return ch
 		},
+		// time.NewTimer: a timer that may or may not have fired whenever somebody looks (like time.After);
+		// Stop reports whether it stopped the timer before it fired and disarms it; Reset re-arms it.
+		"time.NewTimer": func(m *Machine, c *frame, fn *ssa.Function, a []value) value {
+			tt := fn.Signature.Results().At(0).Type().(*types.Pointer).Elem()
+			st := tt.Underlying().(*types.Struct)
+			var cell value = zero(tt)
+			ch := m.makeChan(1, st.Field(0).Type().Underlying().(*types.Chan).Elem())
+			ch.timer = true
+			ch.buf = append(ch.buf, zero(ch.elemT))
+			cell.(structV)[0] = ch
+			return &cell
+		},
+		"(*time.Timer).Stop": func(m *Machine, c *frame, fn *ssa.Function, a []value) value {
+			p := a[0].(*value)
+			ch, _ := (*p).(structV)[0].(*chanV)
+			if ch == nil {
+				return tFalse
+			}
+			if !ch.fired {
+				m.maybeFire(ch)
+			}
+			if ch.fired {
+				return tFalse
+			}
+			ch.timer = false // never fires any more
+			ch.buf = nil
+			return tTrue
+		},
+		"(*time.Timer).Reset": func(m *Machine, c *frame, fn *ssa.Function, a []value) value {
+			p := a[0].(*value)
+			ch, _ := (*p).(structV)[0].(*chanV)
+			if ch == nil {
+				return tFalse
+			}
+			was := ch.timer && !ch.fired
+			ch.timer, ch.fired = true, false
+			ch.buf = []value{zero(ch.elemT)}
+			return mkBool(was)
+		},
 		"(time.Time).Sub":          func(m *Machine, c *frame, fn *ssa.Function, a []value) value { return mkConst(64, 0) },
 		"(time.Duration).String":   func(m *Machine, c *frame, fn *ssa.Function, a []value) value { return mkStr("0s") },
 		"(time.Time).Second":       func(m *Machine, c *frame, fn *ssa.Function, a []value) value { return mkConst(64, 0) },
